@@ -141,8 +141,9 @@ func runC13(r *Result, d *drv.Driver, tier string, seed int64, replay string) {
 		nRand = 60000
 	}
 	r.Rule = "every kind of unsupported value (nil, typed nil, foreign scalars, strings/enums/bytes at struct positions, maps, slices, arrays, funcs, channels, pointer-to-pointer, structs with unknown tag names or unsupported field types, nested and optional) at the top level and at every interface-typed position of real messages; " +
-		"random message values with half of their dynamic positions replaced by junk; every kind of Decode target (nil, non-pointer, nil pointer, pointers to int/pointer/interface/map/slice, structs with bad annotations, a dynamic field without DynamicDispatch, a DynamicDispatch whose BuildFieldValue returns nil / a struct by value / *int32 / time.Duration / a badly annotated struct). " +
+		"random message values with half of their dynamic positions replaced by junk; every kind of Decode target (nil, non-pointer, nil pointer, pointers to int/pointer/interface/map/slice, structs with bad annotations, a dynamic field without DynamicDispatch, a DynamicDispatch whose BuildFieldValue returns nil / a struct by value / *int32 / time.Duration / a badly annotated struct); structs with annotated embedded fields of unexported types (struct, pointer, aliases of time.Time / time.Duration / []byte / Enum, interface) as values and as targets of a stream that contains the annotated item. " +
 		"Each call runs under recover with a recording writer: outcome class and bytes compared with the model; a failed Encode must have written nothing. distinct = distinct rendered input; non-trivial = input exercises an error or junk path"
+	c13Embedded(r)
 	var cases []interface{}
 	for _, mk := range badValues {
 		cases = append(cases, atPositions(mk())...)
@@ -314,4 +315,130 @@ func min(a, b int) int {
 		return a
 	}
 	return b
+}
+
+// ---- values and targets with embedded fields of unexported types that carry annotations -------------------------------------
+// reflect hands such fields out read-only: Interface() and Set() on them panic. The codec has to keep ignoring them (or fail
+// with an error); the stream given to Decode contains the item the annotation names, so a decoder that took the field on
+// would have to store into it.
+
+type c13ver struct {
+	Major int32 `kmip:"PROTOCOL_VERSION_MAJOR,required"`
+	Minor int32 `kmip:"PROTOCOL_VERSION_MINOR,required"`
+}
+type c13stamp = time.Time
+type c13dur = time.Duration
+type c13any interface{}
+type c13blob = []byte
+type c13enum = kmip.Enum
+
+type TEmbedStruct struct {
+	kmip.Tag   `kmip:"REQUEST_HEADER"`
+	c13ver     `kmip:"PROTOCOL_VERSION"`
+	BatchCount int32 `kmip:"BATCH_COUNT,required"`
+}
+type TEmbedPtr struct {
+	kmip.Tag   `kmip:"REQUEST_HEADER"`
+	*c13ver    `kmip:"PROTOCOL_VERSION"`
+	BatchCount int32 `kmip:"BATCH_COUNT,required"`
+}
+type TEmbedTime struct {
+	kmip.Tag `kmip:"RESPONSE_HEADER"`
+	c13stamp `kmip:"TIME_STAMP"`
+	B        int32 `kmip:"BATCH_COUNT,required"`
+}
+type TEmbedDur struct {
+	kmip.Tag `kmip:"RESPONSE_HEADER"`
+	c13dur   `kmip:"TIME_STAMP"`
+	B        int32 `kmip:"BATCH_COUNT,required"`
+}
+type TEmbedAny struct {
+	kmip.Tag `kmip:"ATTRIBUTE"`
+	c13any   `kmip:"ATTRIBUTE_VALUE"`
+	B        int32 `kmip:"BATCH_COUNT"`
+}
+type TEmbedBlob struct {
+	kmip.Tag `kmip:"RESPONSE_HEADER"`
+	c13blob  `kmip:"TIME_STAMP"`
+	c13enum  `kmip:"BATCH_COUNT"`
+}
+
+func c13Embedded(r *Result) {
+	item := func(tag uint32, typ byte, val []byte) []byte {
+		b := []byte{byte(tag >> 16), byte(tag >> 8), byte(tag), typ, 0, 0, 0, byte(len(val))}
+		b = append(b, val...)
+		for len(b)%8 != 0 {
+			b = append(b, 0)
+		}
+		return b
+	}
+	str := func(tag uint32, kids ...[]byte) []byte {
+		var body []byte
+		for _, k := range kids {
+			body = append(body, k...)
+		}
+		return append([]byte{byte(tag >> 16), byte(tag >> 8), byte(tag), 1, 0, 0, byte(len(body) >> 8), byte(len(body))}, body...)
+	}
+	i32 := func(tag uint32, v byte) []byte { return item(tag, 2, []byte{0, 0, 0, v}) }
+	when := time.Unix(1000000000, 0)
+	verItem := str(0x420069, i32(0x42006A, 1), i32(0x42006B, 4))
+	dateItem := item(0x420092, 9, []byte{0, 0, 0, 0, 0x3b, 0x9a, 0xca, 0})
+	cases := []struct {
+		name    string
+		value   interface{}
+		target  func() interface{}
+		streams [][]byte
+	}{
+		{"embedded unexported struct", TEmbedStruct{c13ver: c13ver{1, 4}, BatchCount: 1}, func() interface{} { return &TEmbedStruct{} },
+			[][]byte{str(0x420077, verItem, i32(0x42000D, 1)), str(0x420077, i32(0x42000D, 1))}},
+		{"embedded pointer to unexported struct", TEmbedPtr{c13ver: &c13ver{1, 4}, BatchCount: 1}, func() interface{} { return &TEmbedPtr{} },
+			[][]byte{str(0x420077, verItem, i32(0x42000D, 1)), str(0x420077, i32(0x42000D, 1))}},
+		{"embedded alias of time.Time", TEmbedTime{c13stamp: when, B: 1}, func() interface{} { return &TEmbedTime{} },
+			[][]byte{str(0x42007A, dateItem, i32(0x42000D, 1)), str(0x42007A, i32(0x42000D, 1))}},
+		{"embedded alias of time.Duration", TEmbedDur{c13dur: 5 * time.Second, B: 1}, func() interface{} { return &TEmbedDur{} },
+			[][]byte{str(0x42007A, item(0x420092, 10, []byte{0, 0, 0, 5}), i32(0x42000D, 1)), str(0x42007A, i32(0x42000D, 1))}},
+		{"embedded unexported interface holding a time", TEmbedAny{c13any: when, B: 1}, func() interface{} { return &TEmbedAny{} },
+			[][]byte{str(0x420008, i32(0x42000B, 7), i32(0x42000D, 1)), str(0x420008, i32(0x42000D, 1))}},
+		{"embedded aliases of []byte and Enum", TEmbedBlob{c13blob: []byte{1, 2, 3}, c13enum: 3}, func() interface{} { return &TEmbedBlob{} },
+			[][]byte{str(0x42007A, item(0x420092, 8, []byte{1, 2, 3}), item(0x42000D, 5, []byte{0, 0, 0, 3})), str(0x42007A)}},
+	}
+	for _, c := range cases {
+		for _, byPtr := range []bool{false, true} {
+			key := fmt.Sprintf("Encode of a struct with an annotated %s (pointer=%v)", c.name, byPtr)
+			crumb("C13 " + key)
+			r.eval(key, true)
+			v := c.value
+			if byPtr {
+				p := reflect.New(reflect.TypeOf(v))
+				p.Elem().Set(reflect.ValueOf(v))
+				v = p.Interface()
+			}
+			out, written, _ := realEncode(v)
+			r.Stats["embedded-unexported-probes"]++
+			if strings.HasPrefix(out, "panic") {
+				r.find(Finding{Kind: "violation", What: "Encode panicked on a struct with an annotated embedded field of an unexported type", Input: key, Expect: "bytes or an error", Actual: out})
+			} else if !strings.HasPrefix(out, "ok") && len(written) != 0 {
+				r.find(Finding{Kind: "violation", What: "a failed Encode wrote bytes", Input: key, Actual: fmt.Sprintf("%s; wrote %x", out, written)})
+			}
+		}
+		for si, stream := range c.streams {
+			key := fmt.Sprintf("Decode into a struct with an annotated %s, stream %d (%x)", c.name, si, stream)
+			crumb("C13 " + key)
+			r.eval(key, true)
+			res := ""
+			func() {
+				defer func() {
+					if p := recover(); p != nil {
+						res = fmt.Sprintf("panic: %v", p)
+					}
+				}()
+				err := kmip.NewDecoder(bytes.NewReader(stream)).Decode(c.target())
+				res = classifyErr(err)
+			}()
+			r.Stats["embedded-unexported-probes"]++
+			if strings.HasPrefix(res, "panic") {
+				r.find(Finding{Kind: "violation", What: "Decode panicked on a target with an annotated embedded field of an unexported type", Input: key, Expect: "nil or an error", Actual: res})
+			}
+		}
+	}
 }
